@@ -29,6 +29,20 @@ LEVEL = "proof"
 EXPLANATION = ("1-induction on the netlists of the real USBStreamInEndpoint/USBInTransferManager, USBStreamOutEndpoint and "
                "StandardRequestHandler; the toggle registers are related to observer-level ghosts defined by the statement's rule.")
 
+ASSUMPTIONS = [
+    "C14/IN: the clear-halt strobe arrives between transactions of the endpoint (not while it transmits or waits for an ACK) and not in "
+    "the same cycle as a response slot; discard=0; ACK and token strobes exclusive; transmitter not ready in a packet's first cycle (as C11)",
+    "C14/OUT: is_out and is_ping token flags are exclusive (C01)",
+    "C14/REQ: SETUP fields change only together with `received`; a SETUP is received only while the handler is idle (abandoned "
+    "control transfers: C07/C10); ACK strobe and status-stage response slot do not coincide",
+]
+KNOWN_DEFECTS = """On the unchanged tree two obligations groups are refuted with replayed witnesses (proposed_fixes/C14_toggles.diff):
+ * USBInTransferManager: a reset_sequence strobe in the cycle in which WAIT_FOR_DATA hands a completed packet to WAIT_TO_SEND
+   is overridden by that transition's PID toggle (bit 0 is assigned twice, the FSM's assignment wins): the next packet is
+   DATA1 although CLEAR_FEATURE(ENDPOINT_HALT) completed.
+ * StandardRequestHandler: in CLEAR_FEATURE any ACK raises clear_endpoint_halt — before the status stage, and after a STALLed
+   CLEAR_FEATURE of another feature/recipient (the state is only left on an ACK)."""
+
 IN_ENSURES = {"every_attempt_carries_expected_pid", "pid_stable_during_packet", "in_token_is_answered",
               "retry_of_zlp_is_zlp", "data_follows_accepted_token", "packet_stream_framing"}
 IN_COVERS = {"retry_attempt", "second_packet_pid1", "nak"}
